@@ -313,6 +313,7 @@ def bound_work(payload):
 
 
 def run(tier, seed, only=None):
+    pool.set_recycle(8)
     rep = Report(
         PID, tier, seed, "exploration",
         rule="models x floating/constraint scenarios %s x batch sizes x parameter points x direction vectors: nll_grad, nll_grad_hessian, grad_hessp against "
